@@ -67,11 +67,15 @@ func (k KeyRec) String() string {
 
 // ---- abstract names <-> real addresses ----
 
-// IPName returns "ip<i>" for the real address 10.0.0.(10+i); other addresses are returned verbatim.
+// IPName returns "ip<i>" for the real address 10.0.0.(10+i) and "ip<100+i>" for 10.0.1.(10+i) (the second pod
+// subnet, see PoolConf.Net); other addresses are returned verbatim.
 func IPName(ip net.IP) string {
 	ip4 := ip.To4()
-	if ip4 != nil && ip4[0] == 10 && ip4[1] == 0 && ip4[2] == 0 && ip4[3] > 10 {
+	if ip4 != nil && ip4[0] == 10 && ip4[1] == 0 && ip4[2] == 0 && ip4[3] > 10 && ip4[3] < 110 {
 		return fmt.Sprintf("ip%d", int(ip4[3])-10)
+	}
+	if ip4 != nil && ip4[0] == 10 && ip4[1] == 0 && ip4[2] == 1 && ip4[3] > 10 && ip4[3] < 110 {
+		return fmt.Sprintf("ip%d", 100+int(ip4[3])-10)
 	}
 	return ip.String()
 }
@@ -80,6 +84,9 @@ func IPName(ip net.IP) string {
 func IPAddr(name string) net.IP {
 	var i int
 	if _, err := fmt.Sscanf(name, "ip%d", &i); err == nil {
+		if i > 100 {
+			return net.IPv4(10, 0, 1, byte(10+i-100)).To4()
+		}
 		return net.IPv4(10, 0, 0, byte(10+i)).To4()
 	}
 	return net.ParseIP(name)
@@ -91,17 +98,24 @@ func ipIndex(name string) int {
 	return i
 }
 
-// SubnetCIDR maps "s<k>" to the node subnet 10.(100+k).0.0/24.
+// SubnetCIDR maps "s<k>" (k = 1..5) to the node subnet 10.(100+k).0.0/24 and "s<k>" (k = 6..9) to the single-host
+// node subnet 10.(100+k).0.10/32.
 func SubnetCIDR(name string) string {
 	var k int
 	fmt.Sscanf(name, "s%d", &k)
+	if k >= 6 {
+		return fmt.Sprintf("10.%d.0.10/32", 100+k)
+	}
 	return fmt.Sprintf("10.%d.0.0/24", 100+k)
 }
 
 // SubnetName is the inverse of SubnetCIDR.
 func SubnetName(cidr string) string {
 	var k, m int
-	if _, err := fmt.Sscanf(cidr, "10.%d.0.0/%d", &k, &m); err == nil && k >= 100 {
+	if _, err := fmt.Sscanf(cidr, "10.%d.0.0/%d", &k, &m); err == nil && k >= 100 && m == 24 {
+		return fmt.Sprintf("s%d", k-100)
+	}
+	if _, err := fmt.Sscanf(cidr, "10.%d.0.10/%d", &k, &m); err == nil && k >= 106 && m == 32 {
 		return fmt.Sprintf("s%d", k-100)
 	}
 	return cidr
@@ -112,10 +126,14 @@ func SubnetNet(name string) *net.IPNet {
 	return n
 }
 
-// NodeAddr is the address of node "n<j>" placed in subnet s<k>: 10.(100+k).0.(10+j).
+// NodeAddr is the address of node "n<j>" placed in subnet s<k>: 10.(100+k).0.(10+j); the only address of a
+// single-host subnet is 10.(100+k).0.10.
 func NodeAddr(subnet string, j int) string {
 	var k int
 	fmt.Sscanf(subnet, "s%d", &k)
+	if k >= 6 {
+		return fmt.Sprintf("10.%d.0.10", 100+k)
+	}
 	return fmt.Sprintf("10.%d.0.%d", 100+k, 10+j)
 }
 
@@ -124,6 +142,9 @@ type PoolConf struct {
 	ID      string   `json:"id"`
 	Subnets []string `json:"subnets"`
 	IPs     []string `json:"ips"`
+	// Net selects the pod subnet of the pool: 0 = 10.0.0.0/24 gateway 10.0.0.1 (IPs ip1..ip99), 1 = 10.0.1.0/25
+	// gateway 10.0.1.1 (IPs ip101..ip199)
+	Net int `json:"-"`
 	// optional literal overrides (C13): pod subnet, gateway, vlan and ip range strings
 	RawSubnet  string   `json:"-"`
 	RawGateway string   `json:"-"`
@@ -156,6 +177,9 @@ func (c Config) JSON() string {
 	var out []pc
 	for _, p := range c {
 		e := pc{Subnet: "10.0.0.0/24", Gateway: "10.0.0.1", Vlan: c.vlanOf(p.ID)}
+		if p.Net == 1 {
+			e.Subnet, e.Gateway = "10.0.1.0/25", "10.0.1.1"
+		}
 		for _, s := range p.Subnets {
 			e.NodeSubnets = append(e.NodeSubnets, SubnetCIDR(s))
 		}
@@ -170,9 +194,9 @@ func (c Config) JSON() string {
 				j++
 			}
 			if i == j {
-				e.IPs = append(e.IPs, fmt.Sprintf("10.0.0.%d", 10+idx[i]))
+				e.IPs = append(e.IPs, IPAddr(fmt.Sprintf("ip%d", idx[i])).String())
 			} else {
-				e.IPs = append(e.IPs, fmt.Sprintf("10.0.0.%d~10.0.0.%d", 10+idx[i], 10+idx[j]))
+				e.IPs = append(e.IPs, IPAddr(fmt.Sprintf("ip%d", idx[i])).String()+"~"+IPAddr(fmt.Sprintf("ip%d", idx[j])).String())
 			}
 			i = j + 1
 		}
@@ -201,9 +225,17 @@ func (c Config) Pools() ([]*floatingip.FloatingIPPool, error) {
 func (c Config) Abstract() map[string]interface{} {
 	m := map[string]interface{}{}
 	for _, p := range c {
-		m[p.ID] = map[string]interface{}{"subnets": nonNil(p.Subnets), "ips": nonNil(p.IPs)}
+		m[p.ID] = map[string]interface{}{"subnets": nonNil(p.Subnets), "ips": nonNil(p.IPs), "info": c.InfoOf(p)}
 	}
 	return m
+}
+
+// InfoOf is what the binding annotation must carry with an IP of the pool: vlan, mask bits, gateway.
+func (c Config) InfoOf(p PoolConf) map[string]interface{} {
+	if p.Net == 1 {
+		return map[string]interface{}{"vlan": c.vlanOf(p.ID), "mask": 25, "gw": "10.0.1.1"}
+	}
+	return map[string]interface{}{"vlan": c.vlanOf(p.ID), "mask": 24, "gw": "10.0.0.1"}
 }
 
 func nonNil(s []string) []string {
@@ -226,7 +258,7 @@ func RangeOf(names []string) []nets.IPRange {
 		for j+1 < len(idx) && idx[j+1] == idx[j]+1 {
 			j++
 		}
-		out = append(out, nets.IPRange{First: net.IPv4(10, 0, 0, byte(10+idx[i])).To4(), Last: net.IPv4(10, 0, 0, byte(10+idx[j])).To4()})
+		out = append(out, nets.IPRange{First: IPAddr(fmt.Sprintf("ip%d", idx[i])), Last: IPAddr(fmt.Sprintf("ip%d", idx[j]))})
 		i = j + 1
 	}
 	return out
